@@ -75,9 +75,10 @@ PROPS = {
     ),
     'C13': dict(
         families=['streams', 'pipeline'], reports=['proc', 'pipeline'],
-        proof_files=STREAMS + ['Proofs/PipelineP.v'],
-        theorems='c13_run_is_den, c13_tee, c13_iter_stream, c13_concat, c13_filter, c13_run_tee, c13_stage_identity, c13_pipeline, c13_pipeline_hash, c13_pipeline_injective_hash',
-        assumptions=['Tee side sinks in the adequacy theorem are plain recorders (tame); failing side sinks are covered by C15'],
+        proof_files=STREAMS + ['Proofs/PipelineP.v', 'Proofs/AnyP.v', 'Proofs/AnyRegP.v', 'Proofs/PipelineAnyP.v'],
+        theorems='c13_run_is_den, c13_tee, c13_iter_stream, c13_concat, c13_filter, c13_run_tee, c13_stage_identity, c13_pipeline, c13_pipeline_hash, c13_pipeline_injective_hash, c13_c11_premise_discharged, c13_pipeline_any, c13_pipeline_hash_any [no premise left on the schema-less domain], c13_pipeline_any_reg + c13_fuel_ok_depth3 (+ c13_fuel_constant_edge)',
+        assumptions=['Tee side sinks in the adequacy theorem are plain recorders (tame); failing side sinks are covered by C15',
+                     'with registered names nested in the input the pipeline theorem needs the fuel constant of the stage model to suffice (true for registries whose types nest at most 3 deep); the implementation has no fuel'],
     ),
     'C14': dict(
         families=['streams'], reports=['copy', 'proc'],
